@@ -211,7 +211,15 @@ let run_case (body : string) : string list =
   (* the harness numbers events by their position among ALL ';'-separated fields; empty
      fields are skipped there without consuming an index only if blank: keep the same rule *)
   let evs = List.map event evs in
-  List.map (fun (k, o) -> Printf.sprintf "%d %s" (int_of_n k) (obs o)) (M.run_script evs)
+  (* = M.run_script evs (a left fold of M.step from M.sys_init, numbering the events), iterated here so
+     that earlier states are not retained *)
+  let rec go s k evs acc =
+    match evs with
+    | [] -> List.rev acc
+    | e :: r ->
+      let (s', o) = M.step s e in
+      go s' (k + 1) r (List.rev_append (List.map (fun x -> Printf.sprintf "%d %s" k (obs x)) o) acc) in
+  go M.sys_init 0 evs []
 
 let () =
   try
